@@ -358,6 +358,63 @@ func TestVerif_C41(t *testing.T) {
 		r.Event("gen_"+how, 1)
 	})
 
+	// 3b. small-alphabet tag soup: short sequences over a handful of element names taken from
+	// one theme (document structure, tables, select, foreign content, formatting/adoption,
+	// lists and forms), plus comments, white space and text. The tree-construction rules that
+	// move or remove already inserted nodes (frameset replacing an implied body, foster
+	// parenting, adoption agency) need specific short token sequences that uniform tag soup
+	// almost never produces.
+	themes := [][]string{
+		{"html", "head", "body", "frameset", "frame", "noframes", "title", "base", "meta", "link", "noscript", "script", "style"},
+		{"table", "caption", "colgroup", "col", "tbody", "thead", "tfoot", "tr", "td", "th", "form", "input", "select", "template"},
+		{"select", "option", "optgroup", "keygen", "input", "textarea", "button", "hr", "table", "template", "script"},
+		{"svg", "math", "foreignObject", "desc", "title", "mi", "mo", "mtext", "annotation-xml", "p", "b", "table", "font", "img", "br"},
+		{"a", "b", "i", "em", "font", "nobr", "p", "div", "table", "td", "button", "applet", "marquee", "object", "li", "h1", "address"},
+		{"ul", "ol", "li", "dl", "dd", "dt", "p", "form", "button", "h1", "h2", "pre", "listing", "plaintext", "xmp", "iframe", "ruby", "rb", "rt", "rp", "rtc"},
+	}
+	r.CasesParallel("soup", 64, 0, func(c *verifrt.Case) {
+		per := r.N(120000, 6000000) / 64
+		for k := 0; k < per; k++ {
+			rng := c.Rng
+			th := themes[rng.IntN(len(themes))]
+			var alpha []string
+			for i, n := 0, 2+rng.IntN(4); i < n; i++ {
+				alpha = append(alpha, th[rng.IntN(len(th))])
+			}
+			if rng.IntN(3) == 0 {
+				o := themes[rng.IntN(len(themes))]
+				alpha = append(alpha, o[rng.IntN(len(o))])
+			}
+			var sb strings.Builder
+			if rng.IntN(4) == 0 {
+				sb.WriteString("<!DOCTYPE html>")
+			}
+			for i, n := 0, 2+rng.IntN(11); i < n; i++ {
+				switch rng.IntN(12) {
+				case 0, 1, 2, 3, 4:
+					sb.WriteString("<" + alpha[rng.IntN(len(alpha))] + ">")
+				case 5, 6, 7, 8:
+					sb.WriteString("</" + alpha[rng.IntN(len(alpha))] + ">")
+				case 9:
+					sb.WriteString("<!--c-->")
+				case 10:
+					sb.WriteString([]string{" ", "\n", "\t "}[rng.IntN(3)])
+				default:
+					sb.WriteString("x")
+				}
+			}
+			ctx := verifCtx{Document: true}
+			if rng.IntN(6) == 0 {
+				ctx = verifFragmentContexts[rng.IntN(len(verifFragmentContexts))]
+			}
+			in := sb.String()
+			c.Describe(map[string]any{"input": in, "ctx": ctx})
+			check(c, []byte(in), ctx, rng.IntN(4) != 0)
+			r.Event("soup_inputs", 1)
+		}
+	})
+	r.Require("soup_inputs", 50000)
+
 	// 4. structural stress
 	r.CasesParallel("stress", r.N(2500, 100000), 0, func(c *verifrt.Case) {
 		g := newVerifGen(c.Rng)
